@@ -68,6 +68,24 @@ def diff_obs(a, b):
     return out
 
 
+def stale_uid_files(node):
+    """True iff some segment named by the index still holds files of an event type that its index entry no longer lists
+    (an input drained for that type only: the precondition of C05-retired-uid-files-still-aggregated)."""
+    for sh in node.meta("fs"):
+        idx = sh["index"] if isinstance(sh["index"], list) else []
+        ent = {"%05d" % e["id"]: set(e["uids"]) for e in idx}
+        for f in sh["files"]:
+            if f.get("d"):
+                continue
+            parts = f["p"].split("/")
+            if len(parts) != 2 or parts[0] not in ent:
+                continue
+            uid = parts[1].split(".")[0].split("_")[0]
+            if len(uid) == 16 and uid not in ent[parts[0]]:
+                return True
+    return False
+
+
 def check_double_read(obs, res, sig, witness, where):
     for t in TYPES:
         rows = obs[t].get("rows")
@@ -144,15 +162,17 @@ def rounds_task(task, wdir, res):
         pending = []
         for rnd in range(6):
             before = observe(node, ctxs)
-            check_double_read(before, res, dict(sig, when="before_round"), witness, f"before round {rnd}")
+            stale_before = stale_uid_files(node)
+            check_double_read(before, res, dict(sig, when="before_round", stale_uid_files=stale_before), witness, f"before round {rnd}")
             results = lt.compact_all(1)
             all_results += results
             nplans = sum(r.get("plans", 0) for r in results)
             failed = [r for r in results if r.get("plans") and not r.get("ok")]
             after = observe(node, ctxs)
+            stale = stale_uid_files(node)
             res.evaluations += 1
             if nplans:
-                res.nontrivial(("round", rnd, gen.cfg_desc(cfg), nplans))
+                res.nontrivial(("round", rnd, gen.cfg_desc(cfg), nplans, stale))
             for r in failed:
                 res.violation("compaction_run_failed", dict(sig, panic="panic" in r), f"round {rnd}: {r.get('error') or r.get('panic')}", dict(witness, round=rnd))
             for rule, what, detail in diff_obs(before, after):
@@ -161,8 +181,9 @@ def rounds_task(task, wdir, res):
                     ka = {r[0] for r in after[what].get("rows") or []}
                     pending.append((rnd, what, kb - ka, ka - kb, nplans))
                     continue
-                res.violation(rule, dict(sig, after_failed_round=bool(failed)), f"round {rnd} ({nplans} plans): {what}: {detail}", dict(witness, round=rnd))
-            check_double_read(after, res, dict(sig, when="after_round"), dict(witness, round=rnd), f"after round {rnd}")
+                # a value that was already inflated before the round and is right after it also "changes": either side counts
+                res.violation(rule, dict(sig, after_failed_round=bool(failed), stale_uid_files=stale or stale_before), f"round {rnd} ({nplans} plans): {what}: {detail}", dict(witness, round=rnd))
+            check_double_read(after, res, dict(sig, when="after_round", stale_uid_files=stale), dict(witness, round=rnd), f"after round {rnd}")
             check_retired(node, results, res, sig, dict(witness, round=rnd))
             if nplans == 0:
                 break
@@ -196,7 +217,7 @@ def rounds_task(task, wdir, res):
                 if kb - ka:
                     res.violation(rule, dict(sig, phase="restart_after_rounds", persistence="lost_by_restart"), f"after restart: {what}: {detail}", witness)
                 continue   # rows coming back are reported above as transient
-            res.violation(rule, dict(sig, phase="restart_after_rounds"), f"after restart: {what}: {detail}", witness)
+            res.violation(rule, dict(sig, phase="restart_after_rounds", stale_uid_files=stale_uid_files(node)), f"after restart: {what}: {detail}", witness)
         res.sample({"config": cfg, "segments_flushed": sum(1 for s in steps if s[0] == "flush"), "rounds": rnd + 1})
     finally:
         lt.stop()
@@ -340,7 +361,7 @@ def failure_task(task, wdir, res):
         if failed:
             res.nontrivial(("failure", kind, gen.cfg_desc(cfg)))
             res.add_set("failed_runs", kind)
-        phase_sig = dict(sig, run_failed=failed)
+        phase_sig = dict(sig, run_failed=failed, stale_uid_files=stale_uid_files(node))
         for rule, what, detail in diff_obs(before, after):
             res.violation(rule, dict(phase_sig, phase="after_failed_run"), f"obstacle {kind} for uid {uid} ({'run failed' if failed else 'run ok'}): {what}: {detail}", witness)
         check_double_read(after, res, dict(phase_sig, when="after_failed_run"), witness, "after failed run")
@@ -355,11 +376,13 @@ def failure_task(task, wdir, res):
                 res.violation("compaction_run_failed", dict(phase_sig, phase="round_after_failure", panic="panic" in r), f"{r.get('error') or r.get('panic')}", witness)
         time.sleep(0.2)
         after2 = observe(node, ctxs)
+        phase_sig = dict(phase_sig, stale_uid_files=stale_uid_files(node))
         for rule, what, detail in diff_obs(before, after2):
             res.violation(rule, dict(phase_sig, phase="round_after_failure"), f"obstacle {kind} for uid {uid}, removed, another round: {what}: {detail}", witness)
         check_double_read(after2, res, dict(phase_sig, when="round_after_failure"), witness, "round after failure")
         node = lt.restart_clean()
         after3 = observe(node, ctxs)
+        phase_sig = dict(phase_sig, stale_uid_files=stale_uid_files(node))
         for rule, what, detail in diff_obs(before, after3):
             res.violation(rule, dict(phase_sig, phase="restart_after_failure"), f"obstacle {kind} for uid {uid}, then restart: {what}: {detail}", witness)
         res.sample({"config": cfg, "mode": "failure", "obstacle": kind, "failed": failed, "compaction": witness["compaction"][:160]})
